@@ -646,6 +646,37 @@ def body_calls_rule(run, quick):
     run.extra["body_call_cases_checked_against_the_rule"] = len(coq_cases) - len(outside)
 
 
+def repeat_case(rng):
+    """one template used several times from the same place (page, template body, parser-function argument) with different
+    arguments, its body falling back to defaults that mention other parameters or calls: every use sees its own arguments"""
+    T, A, txt = G.T, G.A, G.txt
+    dflt = rng.choice([[A([txt("b")])], [A([txt("b"), txt("nb")])], txt("<") + [A([txt("2")])] + txt(">"),
+                       [T([txt("t1"), [A([txt("b")])]])], txt("p") + [A([txt("1"), [A([txt("b")])]])]])
+    body = txt(rng.choice(["", "[", "x "])) + [A([txt(rng.choice(["a", "1", "q"])), dflt])] + txt(rng.choice(["", "]", "."]))
+    lib_ = [["T0", body, False], ["t1", txt("(") + [A([txt("1"), txt("-")])] + txt(")"), False]]
+    vals = ["X", "Y", "Z z", "7", ""]
+
+    def call():
+        args = [txt("t0")]
+        for k in rng.sample(["b", "2", "a", "1"], rng.randint(0, 2)):
+            args.append(txt(k + "=" + rng.choice(vals)))
+        return T(args)
+    calls = [call() for _ in range(rng.randint(2, 4))]
+    where = rng.random()
+    if where < 0.5:
+        page = []
+        for c in calls:
+            page += [c] + txt(rng.choice([" ", "", "\n", "/"]))
+    elif where < 0.75:
+        lib_.append(["T2", sum(([c, 32] for c in calls), []), False])
+        page = [T([txt("T2")])] + txt(" ") + [calls[0]]
+    else:
+        page = [T([txt("#if:x"), sum(([c, 32] for c in calls), [])])]
+    page = G.fix_adjacent(page)
+    return {"lib_ast": lib_, "page_ast": page, "lib": [[n, G.render(b), p] for n, b, p in lib_], "page": G.render(page),
+            "wraps": [INCLUDE_WRAPS[0]] * len(lib_), "opts": {}, "title": "Tt"}
+
+
 def run(run):
     run.rule = ("acyclic template libraries (<=5 templates, bodies from the expansion grammar: text atoms with interior/"
                 "leading/trailing blanks and newlines, {{{n}}}, {{{n|default}}}, positional/named/numeric-named/duplicate "
@@ -673,7 +704,7 @@ def run(run):
         run.correspondence_break("Gen/GenData.v, Model/Expand.v or Model/Body.v does not build", None, error=out[-1500:])
     check_template_body(run, run.rng, run.tier == "quick")
     n = 1200 if run.tier == "quick" else 20000
-    cases = [make_case(run.rng) for _ in range(n)]
+    cases = [make_case(run.rng) for _ in range(n)] + [repeat_case(run.rng) for _ in range(n // 8)]
     run_cases(run, cases, "acyclic")
     flat_rule(run, run.tier == "quick")
     if_rule(run, run.tier == "quick")
